@@ -31,7 +31,9 @@ cases; (1..k) the real method replaced IN THIS PROCESS by a copy of its own sour
     Target_Stmt.match          the `::` made mandatory
     Position_Spec.match        the keyword list extended (`ID`)
     Wait_Spec.match            the nested keyword list aliased to `["END", "EOR"]`
-    Cray_Pointer_Decl.match    `pointee_str[-1]` repaired to `endswith` (the model mirrors the IndexError)
+    Cray_Pointer_Decl.match    the repair REVERTED (`if not pointee_str: return None` dropped: IndexError on `(a,)` again)
+    Data_Edit_Desc_C1002.match the repair REVERTED (`if not my_str: return None` dropped: IndexError on `E` again)
+    Use_Stmt._match            the repair REVERTED (`elif line[:idx].strip(): return None` dropped: `use x :: m` accepted again)
     Return_Stmt.tostr          `% self.items` -> `% self.items[0].string`
     Rename.match               `split("=>", 1)` -> `rsplit`
 each must be REPORTED on at least one fixed case; (last) a flipped driver answer -> reported.
@@ -667,20 +669,24 @@ MUTATIONS = [
      [("Position_Spec", "id=3"), ("Position_Spec", "unit=3")]),
     ("Wait_Spec.match nested keyword list aliased and shortened", "Wait_Spec", "match",
      '(["END", "EOR", "ERR"], Label)', '(["END", "EOR"], Label)', [("Wait_Spec", "err=9"), ("Wait_Spec", "end=9")]),
-    ("Cray_Pointer_Decl.match pointee_str[-1] repaired", "Cray_Pointer_Decl", "match",
-     'if pointee_str[-1] == ")":', 'if pointee_str.endswith(")"):', [("Cray_Pointer_Decl", "(a,)"), ("Cray_Pointer_Decl", "(a, b)")]),
+    ("Cray_Pointer_Decl.match repair reverted (IndexError on an empty pointee)", "Cray_Pointer_Decl", "match",
+     "if not pointee_str:\n        return None", "if False:\n        return None",
+     [("Cray_Pointer_Decl", "(a,)"), ("Cray_Pointer_Decl", "(a, b)")]),
     ("Return_Stmt.tostr prints items[0].string", "Return_Stmt", "tostr",
      '"RETURN %s" % self.items', '"RETURN %s" % self.items[0].string', [("Return_Stmt", "return n+1"), ("Return_Stmt", "return")]),
     ("Rename.match split('=>') -> rsplit", "Rename", "match",
      'string.split("=>", 1)', 'string.rsplit("=>", 1)', [("Rename", "a => b => c"), ("Rename", "a => b")]),
-    ("Data_Edit_Desc_C1002.match my_str[0] guarded", "Data_Edit_Desc_C1002", "match",
-     "char2 = my_str[0]", 'char2 = my_str[:1]', [("Data_Edit_Desc_C1002", "E"), ("Data_Edit_Desc_C1002", "E12.4")]),
+    ("Data_Edit_Desc_C1002.match repair reverted (IndexError on a bare E / G)", "Data_Edit_Desc_C1002", "match",
+     "if not my_str:\n            return None", "if False:\n            return None",
+     [("Data_Edit_Desc_C1002", "E"), ("Data_Edit_Desc_C1002", "E12.4")]),
+    ("Use_Stmt._match repair reverted (text between USE and :: not looked at)", "Use_Stmt", "_match",
+     "elif line[:idx].strip():", "elif False:", [("Use_Stmt", "use x :: m"), ("Use_Stmt", "use :: m")]),
 ]
 
 CONTROL_CASES = [("Flush_Stmt", "flush(10)"), ("Flush_Stmt", "flush 10"), ("Flush_Stmt", "flush(10"),
                  ("Stmt_Function_Stmt", "f(a(1)) = x"), ("Bind_Stmt", "bind(c) :: a"), ("Target_Stmt", "target a"),
                  ("Position_Spec", "id=3"), ("Wait_Spec", "err=9"), ("Cray_Pointer_Decl", "(a,)"),
-                 ("Return_Stmt", "return n + 1"), ("Rename", "a => operator(.y.)"), ("Use_Stmt", "use m, only: a"),
+                 ("Return_Stmt", "return n + 1"), ("Rename", "a => operator(.y.)"), ("Use_Stmt", "use m, only: a"), ("Use_Stmt", "use x :: m"), ("Use_Stmt", "use, intrinsic :: m"),
                  ("Char_Expr", "'a'"), ("Char_Expr", "1"), ("Data_Edit_Desc_C1002", "E"), ("Format_Item_C1002", "1pe10.3"),
                  ("Intrinsic_Type_Spec", "double  precision")]
 
@@ -785,9 +791,13 @@ def replay_witnesses():
     expect_str("Position_Spec", "10", "UNIT = 10"); n += 1
     expect_str("Hollerith_Item", "1 2Habcdefghijkl", "12Habcdefghijkl"); n += 1
     # use_drops_before_colons / use_unbalanced_accepted: the text between USE and `::` is never looked at
-    expect_str("Use_Stmt", "use x :: m", "USE :: m"); n += 1
-    expect_parse_exc("program p\nuse (a + :: m\nend program p\n", "accepted"); n += 1
-    expect_parse_exc("program p\nuse intrinsic :: iso_c_binding\nend program p\n", "accepted"); n += 1
+    # REGRESSION (repaired): only `, Module_Nature` may stand between USE and `::`
+    expect_exc("Use_Stmt", "use x :: m", "NoMatchError"); n += 1
+    expect_str("Use_Stmt", "use, intrinsic :: m", "USE, INTRINSIC :: m"); n += 1
+    expect_str("Use_Stmt", "use :: m", "USE :: m"); n += 1
+    expect_parse_exc("program p\nuse x :: m\nend program p\n", "FortranSyntaxError"); n += 1
+    expect_parse_exc("program p\nuse (a + :: m\nend program p\n", "FortranSyntaxError"); n += 1
+    expect_parse_exc("program p\nuse intrinsic :: iso_c_binding\nend program p\n", "FortranSyntaxError"); n += 1
     # pos_rejects_unclosed: a FLUSH statement missing its `)` is rejected
     expect_exc("Flush_Stmt", "flush(10", "NoMatchError"); n += 1
     expect_exc("Flush_Stmt", "flush(unit=10, iostat=i", "NoMatchError"); n += 1
@@ -797,13 +807,16 @@ def replay_witnesses():
     if out != "nomatch" or [(c[0], c[1]) for c in calls][:1] != [("Language_Binding_Spec", "bind(c")]:
         bad.append("Bind_Stmt('bind(c) x'): expected the child call Language_Binding_Spec('bind(c'), got %r %r"
                    % (out, [(c[0], c[1]) for c in calls]))
-    # the escaping IndexErrors (C06)
-    expect_exc("Cray_Pointer_Decl", "(a,)", "IndexError"); n += 1
+    # REGRESSION (repaired): the two IndexErrors that escaped from the parser are now "no match" / syntax errors
+    expect_exc("Cray_Pointer_Decl", "(a,)", "NoMatchError"); n += 1
+    expect_exc("Data_Edit_Desc_C1002", "E", "NoMatchError"); n += 1
+    expect_exc("Data_Edit_Desc_C1002", "g ", "NoMatchError"); n += 1
+    expect_parse_exc("program p\n10 format(E)\nend program p\n", "FortranSyntaxError"); n += 1
+    expect_parse_exc("program p\n10 format(a,g)\nend program p\n", "FortranSyntaxError"); n += 1
+    expect_parse_exc("subroutine s\npointer (a,)\nend subroutine s\n", "FortranSyntaxError"); n += 1
+    # the remaining latent IndexError (not reachable through Format_Item)
     expect_exc("Data_Edit_Desc", "", "IndexError"); n += 1
-    expect_exc("Data_Edit_Desc_C1002", "E", "IndexError"); n += 1
-    expect_exc("Data_Edit_Desc_C1002", "g ", "IndexError"); n += 1
-    expect_parse_exc("program p\n10 format(E)\nend program p\n", "IndexError"); n += 1
-    expect_parse_exc("subroutine s\npointer (a,)\nend subroutine s\n", "IndexError"); n += 1
+    expect_parse_exc("program p\n10 format(2)\nend program p\n", "FortranSyntaxError"); n += 1
     return n, bad
 
 
